@@ -124,6 +124,21 @@ class InitMemRefAllocMemorySpace(RewritePattern):
         rewriter.replace_op(op, new_op, new_results=[new_op.memref])
 
 
+def is_available_at(definition: Operation, op: Operation) -> bool:
+    """
+    Check if the results of definition can be used by op: definition must come before
+    op (or the op that contains op) in the block of op or in one of its ancestor blocks.
+    """
+    user: Operation | None = op
+    while user is not None:
+        if user.parent is definition.parent:
+            block = user.parent
+            assert block is not None
+            return block.get_operation_index(definition) < block.get_operation_index(user)
+        user = user.parent_op()
+    return False
+
+
 class InitStreamAndLinalgMemorySpace(RewritePattern):
     """
     Convert all linalg.generics and stream.streaming region ops to only use L1
@@ -148,6 +163,7 @@ class InitStreamAndLinalgMemorySpace(RewritePattern):
                     isinstance(use.operation, memref.MemorySpaceCastOp)
                     and isinstance(use_type := use.operation.dest.type, builtin.MemRefType)
                     and use_type.memory_space == L1.attribute
+                    and is_available_at(use.operation, op)
                 ):
                     cast_op = use.operation
                     break
